@@ -21,6 +21,8 @@ type ErrCase struct {
 	ProjDir string `json:"proj_dir,omitempty"`
 	// Invoke: how spok is pointed at the project (sandbox.Box.Invoke)
 	Invoke string `json:"invoke,omitempty"`
+	// Outputs: "files" = standard output and error are regular files (sandbox.Box.FileOutputs)
+	Outputs string `json:"outputs,omitempty"`
 	Src    string `json:"src"`
 }
 
@@ -28,6 +30,7 @@ func genErr(t *rapid.T) ErrCase {
 	c := genErrBody(t)
 	c.ProjDir = genProjDir(t)
 	c.Invoke = genInvoke(t)
+	c.Outputs = genOutputs(t)
 	return c
 }
 
@@ -81,6 +84,7 @@ func execErrBinary(s *ev.Shard, b *sandbox.Box, c ErrCase) *rp.Fail {
 	if err := b.ResetFor(c.ProjDir, c.Invoke); err != nil {
 		return &rp.Fail{Sig: "harness", Msg: err.Error()}
 	}
+	b.FileOutputs = c.Outputs == "files"
 	if err := writeProject(b, b.Proj, map[string]string{"spokfile": c.Src}); err != nil {
 		return &rp.Fail{Sig: "harness", Msg: err.Error()}
 	}
